@@ -286,7 +286,9 @@ func cmdAstExport(args []string) error {
 			return err
 		}
 		normSpec(&s)
-		text, toks := printSpec(s)
+		// the declarations are followed by an end of line, alone or behind a comment, and the text may begin with one
+		toks := specToks("t", s.Decls, true)
+		text := layout(toks, []string{"", "/** head **/\n", "", "// head\n\n", ""}[n%5], " ", eols[n%len(eols)])
 		a := AstArt{ID: fmt.Sprintf("%s-%d", s.Fam, n), Fam: s.Fam, Text: text, Toks: toks, Decls: s.Decls, Gen: []GNode{}, Typed: []EDecl{}, TPos: []TPos{}, Prods: []Prod{}}
 		if err := safely(func() error {
 			p, err := ebnfparser.New("t.ebnf", strings.NewReader(text))
